@@ -172,7 +172,7 @@ def run(run: Run) -> int:
     if idx:
         for hs in ("0", "1", "2", "3"):
             env = dict(os.environ, PYTHONHASHSEED=hs)
-            code = f"import sys; sys.path.insert(0,'/verif'); from harness import c03; c03.hashseed_child({run.seed}, {idx})"
+            code = f"import sys; sys.path.insert(0,{str(__import__('harness.common', fromlist=['VERIF']).VERIF)!r}); from harness import c03; c03.hashseed_child({run.seed}, {idx})"
             p = subprocess.run([sys.executable, "-B", "-W", "ignore", "-c", code], env=env, capture_output=True, text=True, timeout=600)
             line = [l for l in p.stdout.splitlines() if l.startswith("HASHSEED-RESULT ")]
             seeds_out[hs] = json.loads(line[0][len("HASHSEED-RESULT "):]) if line else {"error": p.stderr[-500:]}
